@@ -150,3 +150,20 @@ Proof.
   - split; [vm_compute; reflexivity|]. split; [apply pt_check_sound; vm_compute; reflexivity|].
     apply wf_graphb_sound. vm_compute. reflexivity.
 Qed.
+
+(* ---- for consumers (C01, P_DpopBuilt.v): every tree edge and every back edge of the forest the
+   builder model returns is an edge of the constraint graph -- the DFS token only moves along
+   constraint-graph edges.  FULL, no hypothesis on the graph (pt_links_partial read through the
+   accessors t_parent / t_pps).  With ptv_ranked of PT_valid (depth of a child = depth of its
+   parent + 1) this is what DPOP needs beyond PT_valid: a child and its parent share a constraint. *)
+From PyDcop Require Import P_PseudoTree4.
+
+Theorem build_parent_shares_constraint : forall g roots t, build g = Some (roots, t) ->
+  forall a p, t_parent t a = Some p ->
+    In p (g_vars g) /\ exists sc, In sc (g_rels g) /\ In a sc /\ In p sc.
+Proof. exact build_parent_shares_constraint_l. Qed.
+
+Theorem build_pp_shares_constraint : forall g roots t, build g = Some (roots, t) ->
+  forall a p, In p (t_pps t a) ->
+    In p (g_vars g) /\ exists sc, In sc (g_rels g) /\ In a sc /\ In p sc.
+Proof. exact build_pp_shares_constraint_l. Qed.
